@@ -126,10 +126,19 @@ type frame struct {
 	act    int
 	depth  int
 	caller *frame
+	defers []deferredCall
+}
+
+// a deferred call: executed, last first, where the function runs its defers
+type deferredCall struct {
+	kind string // call | invoke | dyncall
+	name string
+	args []*Term
+	pos  token.Pos
 }
 
 func (f *frame) clone() *frame {
-	n := &frame{fn: f.fn, env: make(map[ssa.Value]*Term, len(f.env)), act: f.act, depth: f.depth}
+	n := &frame{fn: f.fn, env: make(map[ssa.Value]*Term, len(f.env)), act: f.act, depth: f.depth, defers: append([]deferredCall(nil), f.defers...)}
 	for k, v := range f.env {
 		n.env[k] = v
 	}
@@ -764,9 +773,35 @@ func (x *Exec) simple(fr *frame, ins ssa.Instruction, st *state) {
 	case *ssa.Go:
 		eff("go", callName(v.Common()), x.callArgs(fr, v.Common())...)
 	case *ssa.Defer:
-		eff("defer", callName(v.Common()), x.callArgs(fr, v.Common())...)
+		c := v.Common()
+		kind := "call"
+		switch {
+		case c.IsInvoke():
+			kind = "invoke"
+		case c.StaticCallee() == nil:
+			if _, isB := c.Value.(*ssa.Builtin); !isB {
+				kind = "dyncall"
+			} else {
+				kind = "builtin"
+			}
+		}
+		fr.defers = append(fr.defers, deferredCall{kind: kind, name: callName(c), args: x.callArgs(fr, c), pos: v.Pos()})
 	case *ssa.RunDefers:
-		eff("rundefers", "rundefers")
+		// deferred calls run here, last first; they are recorded as opaque calls
+		// (a deferred module function is not inlined)
+		for i := len(fr.defers) - 1; i >= 0; i-- {
+			d := fr.defers[i]
+			st.effects = append(st.effects, Effect{Kind: d.kind, Name: d.name, Args: d.args, Fn: funcName(fr.fn), At: x.at(d.pos), NAtoms: len(st.atoms), Pos: d.pos,
+				Res: &Term{Op: "call", Name: d.name, Args: d.args}})
+			for _, a := range d.args {
+				if a.Op == "alloc" || a.Op == "faddr" || a.Op == "param" || a.Op == "load" {
+					if _, isPtr := a.Type.(*types.Pointer); isPtr || a.Op == "alloc" || a.Op == "faddr" {
+						x.havoc(st, a)
+					}
+				}
+			}
+		}
+		fr.defers = nil
 	case *ssa.SliceToArrayPointer:
 		fr.env[v] = &Term{Op: "conv", Name: "s2a", Args: []*Term{x.val(fr, v.X)}}
 	default:
